@@ -454,3 +454,65 @@ func GuardLast(m map[string]box) (res box) {
 	}
 	return res
 }
+
+func ranks(names []string, enc []string) map[string]int {
+	r := make(map[string]int, len(names))
+	for _, n := range names {
+		r[n] = 256
+	}
+	for i, n := range enc {
+		if n == "" {
+			continue
+		}
+		r[n] = i
+	}
+	return r
+}
+
+// PassedOrderFree must stay silent: the unsorted keys are handed to a function that only makes keyed writes.
+func PassedOrderFree(m map[string]int, enc []string) []string {
+	var ks []string
+	for k := range m {
+		ks = append(ks, k)
+	}
+	rank := ranks(ks, enc)
+	slices.SortFunc(ks, func(a, b string) int {
+		if c := cmp.Compare(rank[a], rank[b]); c != 0 {
+			return c
+		}
+		return cmp.Compare(a, b)
+	})
+	return ks
+}
+
+func joined(names []string) string {
+	s := ""
+	for _, n := range names {
+		s += n
+	}
+	return s
+}
+
+// PassedOrdered must be reported: the function the unsorted keys are handed to concatenates them.
+func PassedOrdered(m map[string]int) (string, []string) {
+	var ks []string
+	for k := range m {
+		ks = append(ks, k)
+	}
+	h := joined(ks)
+	sort.Strings(ks)
+	return h, ks
+}
+
+// sortedOf must stay silent: the natural order of a type parameter constrained to ordered types.
+func sortedOf[K cmp.Ordered, V any](m map[K]V) []K {
+	var ks []K
+	for k := range m {
+		ks = append(ks, k)
+	}
+	slices.Sort(ks)
+	return ks
+}
+
+// GenericSorted must stay silent.
+func GenericSorted(m map[string]int) []string { return sortedOf(m) }
